@@ -19,18 +19,40 @@ ISOLATED = ('r', 'c99', 'go', 'cxx')
 def skel(v):
     return {'nr': 'cpp-flex.skl', 'r': 'cpp-flex.skl', 'cxx': 'cpp-flex.skl', 'c99': 'c99-flex.skl', 'go': 'go-flex.skl'}[v.backend]
 
+def _ids(s, i):
+    """length-prefixed identifiers of an Itanium <name> starting at s[i]; returns (list, index after)"""
+    out = []
+    nested = False
+    while i < len(s) and s[i] in 'NKLrVO':
+        if s[i] == 'N': nested = True
+        i += 1
+    while i < len(s):
+        m = re.compile(r'\d+').match(s, i)
+        if m:
+            n = int(m.group(0)); out.append(s[m.end():m.end() + n]); i = m.end() + n
+            if not nested: break
+            continue
+        if s[i] in 'CD' and i + 1 < len(s) and s[i + 1].isdigit() and out:
+            out.append(('~' if s[i] == 'D' else '') + out[-1]); i += 2; continue
+        break
+    if nested and i < len(s) and s[i] == 'E': i += 1
+    return out, i
+
 def norm(name):
-    """identifier with the variant's prefix mapped back to yy (C and Itanium-mangled C++ names)"""
-    name = re.sub(r'\b(foo|bar)(?=[a-zA-Z_])', 'yy', name)
-    m = re.match(r'_ZN\d+(?:yy|foo|bar)FlexLexer(\d+)', name)
-    if m:
-        k = m.end(); n = int(m.group(1)); return 'yyFlexLexer::' + name[k:k + n]
-    m = re.match(r'_ZN\d+(?:yy|foo|bar)FlexLexer([CD])\d', name)
-    if m: return 'yyFlexLexer::' + ('yyFlexLexer' if m.group(1) == 'C' else '~yyFlexLexer')
-    m = re.match(r'_Z(\d+)', name)
-    if m:
-        k = m.end(); n = int(m.group(1)); return re.sub(r'^(foo|bar)', 'yy', name[k:k + n])
-    return name
+    """identifier with the variant's prefix mapped back to yy; Itanium-mangled C++ names are reduced to A::b[::c]"""
+    if name.startswith('_ZZ'):
+        enc, i = _ids(name, 3)
+        j = name.find('E', i)
+        loc, _ = _ids(name, j + 1) if j >= 0 else ([], 0)
+        parts = enc + loc
+    elif name.startswith('_ZT') and len(name) > 3 and name[3] in 'VISTv':
+        parts, _ = _ids(name, 4); parts = ['%s-of' % {'V': 'vtable', 'I': 'typeinfo', 'S': 'typename'}.get(name[3], 'T' + name[3])] + parts
+    elif name.startswith('_Z'):
+        parts, _ = _ids(name, 2)
+    else:
+        parts = None
+    if parts: name = '::'.join(parts)
+    return re.sub(r'(?<![A-Za-z0-9_])(foo|bar)(?=[a-zA-Z_])', 'yy', name)
 
 # ---------------------------------------------------------------- value origins (shared with c13)
 
